@@ -30,11 +30,10 @@ from stix2patterns.v21.grammars.STIXPatternLexer import STIXPatternLexer as Lexe
 from stix2patterns.v21.grammars.STIXPatternParser import STIXPatternParser as Parser21
 from stix2patterns.v21.validator import ValidationListener as VL21, DuplicateQualifierTypeError as Dup21
 
-SAFE = set("abcdefghijklmnopqrstuvwxyzABCDEFGHIJKLMNOPQRSTUVWXYZ0123456789_")
-
-
 def q(s):
-    return "".join(c if c in SAFE else "\\%06X" % ord(c) for c in s)
+    """printable ASCII except backslash and double quote as is, everything else \\XXXXXX
+    (Model/PatternShow.show_q)"""
+    return "".join(c if (32 <= ord(c) <= 126 and c not in '\\"') else "\\%06X" % ord(c) for c in s)
 
 
 # ---------------------------------------------------------------- real parser
@@ -70,7 +69,7 @@ def real_tokens(text, version):
     lexer.removeErrorListeners()
     out = []
     for t in lexer.getAllTokens():
-        out.append("%s:%s" % (L.symbolicNames[t.type], q(t.text)))
+        out.append("%s:%d" % (L.symbolicNames[t.type], len(t.text)))
     return " ".join(out)
 
 
@@ -244,8 +243,7 @@ def m_ts_text(inner):
     y, mo, d = date.split("-")
     hms, _, frac = rest[:-1].partition(".")
     h, mi, s = hms.split(":")
-    frac = frac.rstrip("0")
-    return "T(%d,%d,%d,%d,%d,%d,%s)" % (int(y), int(mo), int(d), int(h), int(mi), int(s), (frac + "000000")[:max(6, len(frac))])
+    return "T(%d,%d,%d,%d,%d,%d,%s)" % (int(y), int(mo), int(d), int(h), int(mi), int(s), frac.rstrip("0"))
 
 
 def m_float_text(t):
@@ -392,7 +390,8 @@ def om_const(o):
     if t is P.StringConstant or t is P.HashConstant:
         return "S(%s)" % q(o.value if o.needs_to_be_quoted else unesc(o.value))
     if t is P.TimestampConstant:
-        return ts_dump(o.value)
+        v = o.value
+        return "T(%d,%d,%d,%d,%d,%d,%s)" % (v.year, v.month, v.day, v.hour, v.minute, v.second, ("%06d" % v.microsecond).rstrip("0"))
     return d_const(o)
 
 
@@ -418,47 +417,24 @@ def om_path(o):
     return "P(%s)[%s]" % (q(o.object_type_name), ";".join(steps))
 
 
-def splice(items, prefix):
-    # an unparenthesised first operand with the same operator continues the chain
-    if items and items[0].startswith(prefix):
-        inner = items[0][len(prefix):-1]
-        return split_top(inner) + items[1:]
-    return items
-
-
-def split_top(s):
-    out, depth, cur = [], 0, []
-    for ch in s:
-        if ch in "([":
-            depth += 1
-        elif ch in ")]":
-            depth -= 1
-        if ch == ";" and depth == 0:
-            out.append("".join(cur))
-            cur = []
-        else:
-            cur.append(ch)
-    out.append("".join(cur))
-    return out
-
-
-def om_expr(o):
+def om_tree(o):
+    """meaning of an object as a nested tuple; an unparenthesised first operand
+    with the same operator continues the chain (that is how the text reads)"""
     t = type(o)
     if t in CMP:
-        op = o.operator
-        return "Cmp(%s,%s,%s,%s)" % (om_path(o.lhs), op, "1" if o.negated else "0", om_const(o.rhs))
-    if t in BOOL:
-        pre = "Bool(%s)[" % BOOL[t]
-        return pre + ";".join(splice([om_expr(x) for x in o.operands], pre)) + "]"
+        return ("leaf", "Cmp(%s,%s,%s,%s)" % (om_path(o.lhs), o.operator, "1" if o.negated else "0", om_const(o.rhs)))
+    if t in BOOL or t in CPD:
+        tag = ("Bool", BOOL[t]) if t in BOOL else ("Cpd", CPD[t])
+        items = [om_tree(x) for x in o.operands]
+        if items and items[0][0] == "op" and items[0][1] == tag:
+            items = items[0][2] + items[1:]
+        return ("op", tag, items)
     if t is P.ObservationExpression:
         if isinstance(o.operand, (P.ObservationExpression, P._CompoundObservationExpression)):
-            return om_expr(o.operand)
-        return "Obs[%s]" % om_expr(o.operand)
-    if t in CPD:
-        pre = "Cpd(%s)[" % CPD[t]
-        return pre + ";".join(splice([om_expr(x) for x in o.operands], pre)) + "]"
+            return om_tree(o.operand)
+        return ("wrap", "Obs", om_tree(o.operand))
     if t is P.ParentheticalExpression:
-        return "Par[%s]" % om_expr(o.expression)
+        return ("wrap", "Par", om_tree(o.expression))
     if t is P.QualifiedObservationExpression:
         ql = o.qualifier
         if type(ql) is P.RepeatQualifier:
@@ -469,8 +445,22 @@ def om_expr(o):
             qs = "SS(%s;%s)" % (om_const(ql.start_time), om_const(ql.stop_time))
         else:
             raise Junk(type(ql).__name__)
-        return "Qual[%s;%s]" % (om_expr(o.observation_expression), qs)
+        return ("qual", om_tree(o.observation_expression), qs)
     raise Junk(t.__name__)
+
+
+def om_render(t):
+    if t[0] == "leaf":
+        return t[1]
+    if t[0] == "op":
+        return "%s(%s)[%s]" % (t[1][0], t[1][1], ";".join(om_render(x) for x in t[2]))
+    if t[0] == "wrap":
+        return "%s[%s]" % (t[1], om_render(t[2]))
+    return "Qual[%s;%s]" % (om_render(t[1]), t[2])
+
+
+def om_expr(o):
+    return om_render(om_tree(o))
 
 
 def meaning_of_object(o):
